@@ -5,8 +5,8 @@ from common import from_replay, to_replay  # noqa: F401
 
 PID = "C09"
 COQ_MODULE = "Prop_C09"
-THEOREMS = ["C09_retry_blocks_holding_nothing", "C09_leaf_members_hold_nothing"]
-CASE_MODULES = ["Conc", "BMonitors"]
+THEOREMS = ["C09_retry_blocks_holding_nothing", "C09_leaf_members_hold_nothing", "C09_every_schedule_waits_clean"]
+CASE_MODULES = ["Conc", "BMonitors", "Wp09"]
 CHECK_WITHOUT_PROOF = True
 TRUSTED = common.TRUSTED_COMMON + ["deterministic scheduler of the harness: real OS threads, one runnable at a time, "
                                    "every raw lock operation and data access is a scheduling point"]
